@@ -134,6 +134,25 @@ ToSTH(r) ==
   IF BLen(r.sha256_root_hash) # 32 \/ ~ds.ok THEN [ok |-> FALSE, v |-> VNone]
   ELSE [ok |-> TRUE, v |-> VStruct(<<VNum(r.tree_size), VNum(r.timestamp), VBytes(r.sha256_root_hash), ds.v>>)]
 
+(* ---------- fixed-size base64 fields ---------- *)
+\* A JSON field that carries a fixed-size structure (a SHA-256 value: sha256_root_hash, log_id, id) converts to the
+\* internal value iff the text is base64 and decodes to exactly that many bytes; the internal value converts back to
+\* the base64 of exactly those bytes.  field: [wf |-> the text is well-formed base64, b |-> the bytes it decodes to]
+HashSize == 32
+ToFixed(field, n) == IF field.wf /\ BLen(field.b) = n THEN [ok |-> TRUE, v |-> VBytes(field.b)] ELSE [ok |-> FALSE, v |-> VNone]
+FromFixed(v) == [wf |-> TRUE, b |-> v.x]
+ToHash(field) == ToFixed(field, HashSize)
+\* the SignedTreeHead JSON object (the client-side form of 4.3 with sth_version and log_id):
+\* [sth_version, tree_size, timestamp, sha256_root_hash (field), tree_head_signature (bytes), log_id (field)]
+ToSTHObject(r) ==
+  LET root == ToHash(r.sha256_root_hash)  id == ToHash(r.log_id)  ds == Complete(DigitallySigned, r.tree_head_signature) IN
+  IF ~root.ok \/ ~id.ok \/ ~ds.ok THEN [ok |-> FALSE, v |-> VNone]
+  ELSE [ok |-> TRUE, v |-> VStruct(<<NumV(r.sth_version), VNum(r.tree_size), VNum(r.timestamp), root.v, ds.v, id.v>>)]
+\* without loss, in both directions: what converts back is what was read, and nothing of another length is read
+FixedLossless(field, n) == LET t == ToFixed(field, n) IN
+                           /\ (t.ok => BytesEq(FromFixed(t.v).b, field.b))
+                           /\ (t.ok <=> (field.wf /\ BLen(field.b) = n))
+
 (* ---------- laws (C04, model level) ---------- *)
 RoundTrip(T, v) == LET e == Enc(T, v) IN e.ok => LET d == Dec(T, e.b) IN d.ok /\ ValEq(d.v, v) /\ BLen(d.rest) = 0
 NoTrailing(T, v) == LET e == Enc(T, v) IN e.ok => ~Complete(T, e.b \o B(<<170>>)).ok
